@@ -15,6 +15,11 @@ CLAIMS = {
             "Decides, for every path of every generic controller's reconcile code, the write-order clauses of the property "
             "(finalizer before output, destroy only when ready/empty, finalizer released only after destroy/handler success) "
             "plus the store-level finalizer guard. Orders across reconciles are not decided.", "§3 C07"),
+    "C08": ("guard-before-delegate path-cut on go/ssa + who-may-access over the resolved program + value provenance of owner options",
+            "Decides the access-control shape: every delegated read/write/finalizer call of the controller-facing adapter is behind the "
+            "matching guard on the same target, the guards accept only through the comparisons the property names, the adapters expose "
+            "nothing but those guarded methods to user callbacks, and owned.State stamps/checks the controller's own name as owner. "
+            "Loop logic inside the guards beyond accepting-path comparisons is not decided.", "§3 C08"),
 }
 
 # properties not (yet) claimed: id -> reason
